@@ -91,8 +91,10 @@ CLAIMS['C11'] = dict(
     text=('Proof for the CSR layout only: LC_CSR_Graph::raw_begin/raw_end/getDegree (per-node edge ranges from consecutive index entries; ordered, adjacent, 0..numEdges: lemma over the contracts) and the '
           'callback constructor with all four loops closed by invariants: the index array is the prefix sum of the callback\'s edge counts and slot idx[p-1]+e holds exactly edgeDst(p,e)/edgeData(p,e) for an '
           'arbitrary probe node p and edge e -- the graph presents the callback\'s out-edges in callback order, each written once. A BOUNDED sibling (all graphs with <= 3 nodes, degree <= 3, loops unwound, '
-          'tolerant lowering) judges the same constructor when its loop structure has been changed and the invariants no longer fit.'),
-    note=('Narrow claim: every other layout, file-based construction, in-edges, transpose, sorting, binary-search lookup, NUMA options and local ranges are NOT decided. '
+          'tolerant lowering) judges the same constructor when its loop structure has been changed and the invariants no longer fit.  '
+          'Construction from a file: FileGraph::edge_begin/edge_end/getEdgeDst (v1/v2)/getEdgeData against the file sections, and LC_CSR_Graph::constructFrom(FileGraph&, tid, total) with both loops closed by invariants: '
+          'index entries, destinations and data of exactly the thread\'s nodes are the file\'s, in file order; nothing else is written.'),
+    note=('Narrow claim: every other layout, the readGraph driver and the composition over threads, void/v2 constructFrom, in-edges, transpose, sorting, binary-search lookup, NUMA options and local ranges are NOT decided. '
           'Trusted: callbacks are deterministic functions; allocation dropped (arrays supplied); size bounds.'))
 
 CLAIMS['C05'] = dict(
